@@ -12,6 +12,9 @@
              'full_rune) and proved equal, for every split of the stream into reads, to utf8.DecodeRune on '
              'the whole stream (bom_split_across_reads); UnreadRune = put the rune back; I/O errors of the '
              'source are out of scope here (C16); validated with one-byte, data+EOF and random chunk readers',
+             'long inputs (non-ASCII bytes at and across every offset around k*4096, the size of the bufio.Reader '
+             'inside ios.StripBOM and of x/text\'s transform buffers) are compared as streams for all three '
+             'encodings with a small-read and a ReadAll consumer, and as Read transcripts for the formats',
              'the format readers are not modelled here: equality of Read transcripts is decided on the Go '
              'side (transcript(bytes, X) == transcript(utf8_of_X(bytes), utf-8)) for the seven formats'],
  'assumptions': []}
